@@ -7,6 +7,7 @@ package ugo
 import (
 	"fmt"
 	"io"
+	"math"
 	"reflect"
 
 	"github.com/ozanh/ugo/internal"
@@ -120,9 +121,11 @@ func newCompiler(
 	if constsCache == nil {
 		constsCache = make(map[Object]int)
 		for i := range opts.Constants {
-			switch opts.Constants[i].(type) {
+			switch v := opts.Constants[i].(type) {
 			case Int, Uint, String, Bool, Float, Char, *UndefinedType:
-				constsCache[opts.Constants[i]] = i
+				if !isNegativeZero(v) {
+					constsCache[opts.Constants[i]] = i
+				}
 			}
 		}
 	}
@@ -477,8 +480,15 @@ func (c *Compiler) addConstant(obj Object) (index int) {
 		}
 	}()
 
-	switch obj.(type) {
+	switch v := obj.(type) {
 	case Int, Uint, String, Bool, Float, Char, *UndefinedType:
+		if isNegativeZero(v) {
+			// -0.0 equals 0.0 as a map key but is a different constant:
+			// it never shares a slot and is never cached.
+			index = len(c.constants)
+			c.constants = append(c.constants, obj)
+			return
+		}
 		i, ok := c.constsCache[obj]
 		if ok {
 			index = i
@@ -498,6 +508,12 @@ func (c *Compiler) addConstant(obj Object) (index int) {
 	c.constants = append(c.constants, obj)
 	c.constsCache[obj] = index
 	return
+}
+
+// isNegativeZero reports whether obj is the float constant -0.0.
+func isNegativeZero(obj Object) bool {
+	f, ok := obj.(Float)
+	return ok && f == 0 && math.Signbit(float64(f))
 }
 
 func (c *Compiler) addCompiledFunction(obj Object) (index int) {
